@@ -216,6 +216,10 @@ class Parser:
         if k == "id":
             if v == "if":
                 self.i -= 1; return self.if_()
+            if v == "vec" and self.peek() == ("op", "!"):
+                self.next()
+                if self.peek() != ("op", "["): raise Untranslatable("vec! without brackets")
+                return self.primary()      # the bracketed literal / repeat that follows
             path = [v]
             while self.peek() == ("op", "::"):
                 self.next(); path.append(self.next()[1])
